@@ -1,3 +1,4 @@
+import os
 """R-WORDALG for the portable C++ multi-precision layer: the same word-level algebra as jpv/asmsem.py, with the resolved,
 instantiated AST as front end.
 
@@ -264,6 +265,12 @@ class CppMachine:
         m_ = 1 << bits
         Hc = {mm: c // m_ for mm, c in v.t.items() if c % m_ == 0}
         Lc = {mm: c for mm, c in v.t.items() if c % m_ != 0}
+        # the constant term is divided with remainder
+        c0 = v.t.get((), 0)
+        if c0 % m_:
+            Lc[()] = c0 % m_
+            if c0 // m_:
+                Hc[()] = c0 // m_
         if not Hc:
             return None
         L = ZPoly(Lc)
@@ -818,6 +825,25 @@ class CppMachine:
         if k == 'return':
             if s.get('e') is not None:
                 e = s['e']
+                e0 = strip(e)
+                while isinstance(e0, dict) and e0.get('k') == 'cast' and e0.get('ck') in ('NoOp', 'IntegralCast', 'IntegralToBoolean', 'LValueToRValue'):
+                    e0 = strip(e0['e'])
+                if isinstance(e0, dict) and e0.get('k') == 'call':
+                    # `return f(...)` where f has several outcomes: one returning state per outcome
+                    outs = []
+                    depth = len(st.frames)
+                    for s2 in self.call(st, e0):
+                        rv = s2.fr.ret_from_call
+                        if isinstance(rv, tuple):
+                            for (r, s3) in self.branch_on(s2, rv, e):
+                                s3.fr.ret = ZPoly.const(1 if r else 0)
+                                s3.fr.returned = True
+                                outs.append(s3)
+                            continue
+                        s2.fr.ret = rv
+                        s2.fr.returned = True
+                        outs.append(s2)
+                    return outs
                 try:
                     v = self.eval(st, e)
                 except Unsupported:
@@ -888,6 +914,16 @@ class CppMachine:
             self.nlocal += 1
             obj = 'loc%d' % self.nlocal
             st.fr.vars[v['id']] = ('obj', obj, 0)
+            if init is not None and init.get('k') in ('copyctor', 'load', 'member', 'ref', 'cast') and (init.get('t') or {}).get('k') in ('record', 'union'):
+                # copy-initialisation from an lvalue of the same type
+                x = init
+                while isinstance(x, dict) and x.get('k') in ('copyctor', 'load', 'cast') and x.get('e') is not None:
+                    x = x['e']
+                src = self.lvalue(st, x)
+                size = t.get('size') or 0
+                for woff in range(0, size, self.wb):
+                    st.p.mem[(obj, woff)] = self.rd_word(st, src[0], src[1] + woff)
+                return
             if init is not None and init.get('k') not in ('defaultinit',):
                 cells = {}
                 self.init_cells(st, init, 0, cells)
@@ -1669,6 +1705,104 @@ def _refine_on_compare(self, outs):
     return _propagate_compare_to_bits(self, outs)
 
 
+def sign_with_facts(self, st, X):
+    """'neg' (X < 0), 'nonneg' (X >= 0) or None, from intervals and from the path's facts about big values: with a fact F < 0,
+    X + F >= 0 gives X >= -F > 0, and X - F <= 0 gives X <= F < 0 (non-strict facts give the non-strict conclusions)"""
+    sub = {a: ZPoly.const(v) for a, v in st.p.bits.items()}
+    # partially rewritten forms first: a value atom keeps the range its specification gives it
+    cur = X.subs(sub)
+    for _ in range(12):
+        lo, hi = self.rng(cur)
+        if lo >= 0:
+            return 'nonneg'
+        if hi < 0:
+            return 'neg'
+        cur, more = self.expand_newest(cur)
+        cur = cur.subs(sub)
+        if not more:
+            break
+    X = _path_normal(self, st, X) if getattr(self, 'infer', False) else self.world.expand(X).subs(sub)
+    lo, hi = self.rng(X)
+    if lo >= 0:
+        return 'nonneg'
+    if hi < 0:
+        return 'neg'
+    facts = [r for r in st.p.rels if len(r) >= 4]
+    # the decided carries / borrows of the path are facts about whole sums: borrow == 1 means the minuend is below the subtrahend
+    if getattr(self, 'infer', False):
+        for a, v in st.p.bits.items():
+            at = self.world.atoms[a]
+            if at['kind'] not in ('carry', 'borrow') or at.get('comp') is None or (at['lo'], at['hi']) != (0, 1):
+                continue
+            d = self.world.atoms[at['comp']].get('defn')
+            if d is None:
+                continue
+            wgt = at.get('weight') or self.W
+            if at['kind'] == 'carry':
+                S, theta = _unfold_chain(self, st, d + ZPoly.var(a) * wgt, wgt, 'carry')
+                facts.append((S, ZPoly.const(theta), frozenset({'gt', 'eq'}) if v else frozenset({'lt'}), 'chain'))
+            else:
+                S, theta = _unfold_chain(self, st, d - ZPoly.var(a) * wgt, 1, 'borrow')
+                facts.append((S, ZERO, frozenset({'lt'}) if v else frozenset({'gt', 'eq'}), 'chain'))
+    for r in facts:
+        A, B, rel = r[0], r[1], r[2]
+        F = _path_normal(self, st, A - B) if getattr(self, 'infer', False) else self.world.expand(A - B).subs(sub)
+        cands = []
+        if rel <= {'lt'}:
+            cands.append((F, True))
+        elif rel <= {'lt', 'eq'}:
+            cands.append((F, False))
+        if rel <= {'gt'}:
+            cands.append((-F, True))
+        elif rel <= {'gt', 'eq'}:
+            cands.append((-F, False))
+        for (G, strict) in cands:           # G < 0 (strict) or G <= 0
+            for mult in (1, 2):
+                if self.rng(X * mult + G)[0] >= 0:
+                    return 'nonneg'             # mult * X >= -G >= 0
+                up = self.rng(X * mult - G)[1]
+                if up <= 0 and strict:
+                    return 'neg'                # mult * X <= G < 0
+                if up < 0:
+                    return 'neg'
+    return None
+
+
+def _unfold_chain(self, st, T, theta, kind):
+    """the carry (borrow) k of a multi-word addition (subtraction) with k == [T >= theta] (k == [T < 0]) where T still mentions the
+    carry k' of the word below, k' == floor(T' / w'):  T >= theta  <=>  (T - k') w' + T' >= theta w'  (exact for integers), and the
+    same with the opposite sign for borrows.  Repeated down the chain this compares the whole sum with the whole modulus power."""
+    sub = {a: ZPoly.const(v) for a, v in st.p.bits.items()}
+    S = T
+    for _ in range(64):
+        S = S.subs(sub)
+        nxt = None
+        for a in S.atoms():
+            at = self.world.atoms[a]
+            if at['kind'] in ('carry', 'borrow') and at.get('comp') is not None and (at['lo'], at['hi']) == (0, 1):
+                c = S.t.get(((a, 1),), 0)
+                lin = all(e == 1 and len(m_) == 1 for m_ in S.t for (b, e) in m_ if b == a)
+                d = self.world.atoms[at['comp']].get('defn')
+                if d is None or not lin:
+                    continue
+                if (at['kind'] == 'carry' and c == 1) or (at['kind'] == 'borrow' and c == -1):
+                    q = self.world._seq(a)
+                    if nxt is None or q > nxt[0]:
+                        nxt = (q, a, at, d)
+        if nxt is None:
+            break
+        _, a, at, d = nxt
+        w2 = at.get('weight') or self.W
+        if at['kind'] == 'carry':
+            T2 = d + ZPoly.var(a) * w2              # k' == floor(T2 / w2)
+            S = (S - ZPoly.var(a)) * w2 + T2
+        else:
+            T2 = d - ZPoly.var(a) * w2              # b' == [T2 < 0] == -floor(T2 / w2)
+            S = (S + ZPoly.var(a)) * w2 + T2
+        theta = theta * w2
+    return S, theta
+
+
 def infer_bits(self, st):
     """carry / borrow bits forced by their own defining identity once other bits are known on the path:  v = T - W k  with
     max(T) < W gives k = 0 (min(T) >= W gives k = 1);  v = T + W b  with min(T) >= 0 gives b = 0"""
@@ -1694,6 +1828,12 @@ def infer_bits(self, st):
                 elif lo >= wgt:
                     st.p.bits[a] = 1
                     changed = True
+                elif any(len(r) >= 4 for r in st.p.rels):
+                    S, theta = _unfold_chain(self, st, T, wgt, 'carry')
+                    sg = sign_with_facts(self, st, S - theta)
+                    if sg is not None:
+                        st.p.bits[a] = 1 if sg == 'nonneg' else 0
+                        changed = True
             else:
                 T = (d - ZPoly.var(a) * wgt).subs(sub)
                 if a in T.atoms():
@@ -1705,6 +1845,12 @@ def infer_bits(self, st):
                 elif hi < 0:
                     st.p.bits[a] = 1
                     changed = True
+                elif any(len(r) >= 4 for r in st.p.rels):
+                    S, theta = _unfold_chain(self, st, T, 1, 'borrow')
+                    sg = sign_with_facts(self, st, S)
+                    if sg is not None:
+                        st.p.bits[a] = 0 if sg == 'nonneg' else 1
+                        changed = True
 
 
 def _propagate_compare_to_bits(self, outs):
@@ -1983,6 +2129,26 @@ def _path_normal(m, st, p):
     """p expanded through the defining identities with the path facts applied - including the facts about DEFINED bits: a bit b with
     b == E(older atoms) that the path fixes to v contributes the linear relation E == v, used to eliminate one atom of E"""
     sub = {a: ZPoly.const(v) for a, v in st.p.bits.items()}
+    # equalities established by comparisons on the path: a sum of non-negative atoms with positive coefficients that equals a small
+    # constant fixes every atom whose coefficient exceeds the constant to zero, and a single remaining atom to the quotient
+    eqs = {}
+    for r in st.p.rels:
+        if r[2] != frozenset({'eq'}) or not r[1].is_const():
+            continue
+        Kc = r[1].const_value() - r[0].t.get((), 0)
+        terms = [(m_, c) for m_, c in r[0].t.items() if m_ != ()]
+        if Kc < 0 or not all(len(m_) == 1 and m_[0][1] == 1 and c > 0 and m.world.atoms[m_[0][0]]['lo'] >= 0 for m_, c in terms):
+            continue
+        left = []
+        for m_, c in terms:
+            if c > Kc:
+                eqs[m_[0][0]] = ZERO
+            else:
+                left.append((m_[0][0], c))
+        if len(left) == 1 and Kc % left[0][1] == 0:
+            eqs[left[0][0]] = ZPoly.const(Kc // left[0][1])
+    if eqs:
+        p = p.subs(eqs)
     q = m.world.expand(p).subs(sub)
     for a, v in sorted(st.p.bits.items(), key=lambda kv: -m.world._seq(kv[0])):
         d = m.world.atoms[a].get('defn')
@@ -2000,6 +2166,26 @@ def _path_normal(m, st, p):
         x, c, _ = piv
         rest = R - ZPoly.var(x) * c              # c*x + rest == 0  =>  x == -rest / c
         q = q.subs({x: rest * (-c)})
+    # equalities established by comparisons on the path
+    for r in st.p.rels:
+        if r[2] != frozenset({'eq'}):
+            continue
+        R = m.world.expand(r[0] - r[1]).subs(sub)
+        done = set()
+        for _ in range(8):
+            piv = None
+            for mono, c in R.t.items():
+                if len(mono) == 1 and mono[0][1] == 1 and c in (1, -1) and mono[0][0] not in done:
+                    piv = (mono[0][0], c)
+                    break
+            if piv is None:
+                break
+            x, c = piv
+            rest = R - ZPoly.var(x) * c
+            # a sum of non-negative words that equals zero forces each word to zero: only used when R is a single atom plus a constant
+            if len(R.t) <= 2:
+                q = q.subs({x: rest * (-c)})
+            break
     return q
 
 
@@ -2137,3 +2323,289 @@ def rule_wnaf_step(ctx, cfg, prog, rule='R-WORDALG/c++'):
         ctx.ob(rule, not msgs and bool(finals), 'wordalg-c++|%s|step' % name, loc_str(f), '%s: %s' % (name, ' ;; '.join(x[:500] for x in msgs[:2])), cfg=cfg,
                sample=dict(config=cfg, routine=name, paths=len(finals), specification='one loop iteration: c_old == u + 2 c_new, |u| <= 2^w - 1, digit stored at wnaf[i], i advanced'))
     return n_ob
+
+
+# ---------------------------------------------------------------------------------------------- binary extended Euclid (C02)
+_prev_extern = CppMachine.extern_summary
+
+
+def _extern_summary_fp(self, st, name, args, e):
+    """fpbase add / subtract / multiply2 in assembly: res == a +- b -+ t * p with t a bit (the specification R-WORDALG proves)"""
+    import re
+    m = re.search(r'_fpbase_(\d+)_(add|subtract|multiply2)$', name)
+    if not m:
+        return _prev_extern(self, st, name, args, e)
+    bits, op = int(m.group(1)), m.group(2)
+    n = bits // self.wordbits
+    res = self.pointer(st, args[0])
+    a = self.pointer(st, args[1])
+    b = self.pointer(st, args[2]) if op != 'multiply2' else a
+    p = self.pointer(st, args[3] if op != 'multiply2' else args[2])
+    A = sum((self.rd_word(st, a[0], a[1] + i * self.wb) * (self.W ** i) for i in range(n)), ZPoly())
+    B = sum((self.rd_word(st, b[0], b[1] + i * self.wb) * (self.W ** i) for i in range(n)), ZPoly())
+    P = sum((self.rd_word(st, p[0], p[1] + i * self.wb) * (self.W ** i) for i in range(n)), ZPoly())
+    tn = self.world.new('t', 'borrow', 0, 1, weight=self.W ** n)
+    t = ZPoly.var(tn)
+    total = (A - B + t * P) if op == 'subtract' else (A + B - t * P)
+    hi = self.rng(P)[1]
+    if getattr(self, 'infer', False) and sign_with_facts(self, st, A - P) == 'neg' and sign_with_facts(self, st, B - P) == 'neg':
+        hi -= 1          # canonical operands give a canonical result (the specification proven for the routine)
+    dn = self.world.new('d', 'val', 0, hi, defn=total)
+    _write_big(self, st, res[0], res[1], n, None, ZPoly.var(dn))
+    st.fr.ret_from_call = None
+    return True
+
+
+CppMachine.extern_summary = _extern_summary_fp
+
+
+def _exec_true_branch(m, st, cond_ast, body):
+    outs = []
+    for (r, s2) in m.cond(st, cond_ast):
+        if r:
+            outs += m.exec(s2, body)
+    return outs
+
+
+def rule_inverse_step(ctx, cfg, prog, rule='R-WORDALG/c++'):
+    """fp_inverse (binary extended Euclid in Montgomery form): with K := R^2 / a.val (mod p) the loop invariant is
+    b == K u and c == K v (mod p).  Decided per statement of the loop body, from an ARBITRARY state: a halving step gives u == 2u',
+    2(b' - K u') == (b - K u) (mod p); the subtraction step gives b' - K u' == (b - K u) - (c - K v) (mod p) (resp. for c, v); the
+    statements before the loop establish b = R^2, c = 0, u = a.val, v = p; after the loop the result is b when u == 1 and c
+    otherwise, and the loop runs while neither is one.  Hence res == K == a^-1 R (mod p) whenever the loop ends (termination is not
+    decided); a == 0 gives 0."""
+    from . import buildmodel as bm, consts
+    wordbits = bm.configs()[cfg]['words']
+    n_ob = 0
+    for f in sorted(prog.functions.values(), key=lambda f: f['qn']):
+        if 'body' not in f or not f['qn'].startswith('embedded_pairing::core::fp_inverse<'):
+            continue
+        name = f['qn'].replace('embedded_pairing::', '')[:70]
+        msgs = []
+        body = f['body']['body']
+        outer = [s for s in body if s.get('k') == 'while']
+        if len(outer) != 1:
+            raise bm.AnalysisBroken('%s: expected one outer loop, found %d' % (f['qn'], len(outer)))
+        outer = outer[0]
+        ob = outer['body']['body'] if outer['body'].get('k') == 'compound' else [outer['body']]
+        inner = [s for s in ob if s.get('k') == 'while']
+        ifs = [s for s in ob if s.get('k') == 'if']
+        tail = [s for s in body[body.index(outer) + 1:] if s.get('k') == 'if']
+        if len(inner) != 2 or len(ifs) != 1 or len(tail) != 1 or len(ob) != 3:
+            raise bm.AnalysisBroken('%s: the loop body is not two halving loops and one subtraction step (restructured: no verdict)' % f['qn'])
+        pt = (f['params'][0]['t'].get('pointee') or {})
+        nbytes = pt.get('size') or 0
+        try:
+            nw = nbytes // (wordbits // 8)
+            m = CppMachine(prog, wordbits, {'RES': 0, 'A': nw})
+            m.big_summaries = True
+            m.topdown_splits = True
+            m.infer = True
+            m.junk_locals = True
+            st = St(Path(), [Frame(f, None)])
+            st.fr.vars[f['params'][0]['id']] = ('obj', 'RES', 0)
+            st.fr.vars[f['params'][1]['id']] = ('obj', 'A', 0)
+            pre = body[:body.index(outer)]
+            sts = [st]
+            for s in pre:
+                nxt = []
+                for x in sts:
+                    nxt += m.exec(x, s)
+                sts = nxt
+            zero_paths = [x for x in sts if x.fr.returned]
+            live = [x for x in sts if not x.fr.returned]
+            if not zero_paths or not live:
+                msgs.append('the zero test before the loop was not found')
+            for x in zero_paths:
+                rw = [x.p.mem.get(('RES', i * m.wb)) for i in range(nw)]
+                if any(w is None or not m.subst(x, w).is_zero() for w in rw):
+                    msgs.append('the inverse of zero is not zero')
+            # all live paths must agree on the initial state
+            st = live[0]
+            objs = {}
+            for s in pre:
+                if s.get('k') == 'decl':
+                    for v in s['vars']:
+                        cur = st.fr.vars.get(v['id'])
+                        if isinstance(cur, tuple) and cur[0] == 'obj':
+                            objs[v['name']] = cur[1]
+            for need in ('b', 'c', 'u', 'v'):
+                if need not in objs:
+                    raise Unsupported('local %s not identified' % need)
+
+            var_ids = {}
+            for s in pre:
+                if s.get('k') == 'decl':
+                    for v in s['vars']:
+                        var_ids[v['name']] = v['id']
+
+            def big(s_, o):
+                # forked states name their locals independently
+                cur = s_.fr.vars.get(var_ids[o])
+                return sum((m.rd_word(s_, cur[1], cur[2] + i * m.wb) * (m.W ** i) for i in range(nw)), ZPoly())
+            Aw = bigw(m, words_of(m, 'A', nw))
+            # constants
+            fp = f['qn'][len('embedded_pairing::core::fp_inverse<'):-1]
+            rec = prog.records.get(pt.get('rec')) or {}
+            Pval = None
+            for gname in ('%s::p_value' % pt.get('rec'),):
+                g = prog.globals.get(gname)
+                hops = 0
+                while g is not None and isinstance(g.get('value'), dict) and 'lvalue' in g['value'] and hops < 8:
+                    g = prog.globals.get(g['value']['lvalue'])
+                    hops += 1
+                if g is not None and 'value' in g:
+                    Pval = consts.as_int(consts.decode(g['value']))
+            if not isinstance(Pval, int):
+                # the modulus is the value v starts from
+                pv = big(st, 'v')
+                Pval = pv.const_value() if pv.is_const() else None
+            if not isinstance(Pval, int) or Pval < 3:
+                raise Unsupported('modulus not identified')
+            for x in live:
+                if not (big(x, 'u') - Aw).is_zero() or not (big(x, 'v') - Pval).is_zero() or not big(x, 'c').is_zero():
+                    msgs.append('before the loop (u, v, c) is not (a, p, 0): u - a = %r, v - p = %r, c = %r' % (big(x, 'u') - Aw, big(x, 'v') - Pval, big(x, 'c')))
+                bv = big(x, 'b')
+                R2 = pow(1 << (nw * wordbits), 2, Pval)
+                if not (bv.is_const() and bv.const_value() == R2):
+                    msgs.append('before the loop b is not R^2 mod p')
+
+            def arbitrary():
+                s0 = live[0].fork()
+                vals = {}
+                for o in ('u', 'v', 'b', 'c'):
+                    nm = 'ST_' + o.upper()
+                    m.inputs[nm] = nw
+                    ws = words_of(m, nm, nw)
+                    # all four values are at most p (b, c canonical; u, v decrease from a < p and p): their top word is at most p's
+                    m.world.atoms['%s_%d' % (nm, nw - 1)]['hi'] = Pval >> (wordbits * (nw - 1))
+                    for i in range(nw):
+                        s0.p.mem[(objs[o], i * m.wb)] = ws[i]
+                    vals[o] = bigw(m, ws)
+                    # the range part of the invariant: b, c < p (canonical), u, v <= p
+                    s0.p.rels.append((vals[o], ZPoly.const(Pval), frozenset({'lt'}) if o in ('b', 'c') else frozenset({'lt', 'eq'}), 'big'))
+                return s0, vals
+            K = m.world.input('K')
+            m.world.atoms['K']['hi'] = Pval - 1
+
+            def inv(vals, which, s_=None):
+                if s_ is None:
+                    return vals['b' if which == 'b' else 'c'] - K * vals['u' if which == 'b' else 'v']
+                return big(s_, which) - K * big(s_, 'u' if which == 'b' else 'v')
+
+            def range_ok(s_, path):
+                infer_bits(m, s_)
+                for o in ('b', 'c'):
+                    if sign_with_facts(m, s_, big(s_, o) - Pval) != 'neg':
+                        msgs.append('on the path %s %s is not shown to stay below p (the representation must stay canonical: the next modular subtraction relies on it)' % (path, o))
+                for o in ('u', 'v'):
+                    if sign_with_facts(m, s_, big(s_, o) - Pval - 1) != 'neg':
+                        msgs.append('on the path %s %s is not shown to stay at most p' % (path, o))
+
+            def mod_p_zero(s_, D):
+                D = path_normal(m, s_, D)
+                return all(co % Pval == 0 for co in D.t.values()), D
+
+            # halving steps
+            for (loop, val, acc, oval, oacc) in ((inner[0], 'u', 'b', 'v', 'c'), (inner[1], 'v', 'c', 'u', 'b')):
+                # identify which pair the loop works on from its condition
+                s0, vals = arbitrary()
+                outs = _exec_true_branch(m, s0, loop['c'], loop['body'])
+                if not outs:
+                    msgs.append('a halving loop has no feasible iteration')
+                for s2 in outs:
+                    path = '[' + '; '.join(s2.p.trace[-4:]) + ']'
+                    # which value was halved?
+                    halved = None
+                    for cand in ('u', 'v'):
+                        if path_normal(m, s2, big(s2, cand) * 2 - vals[cand]).is_zero():
+                            halved = cand
+                    if halved is None:
+                        msgs.append('on the path %s of a halving loop neither u nor v is halved exactly' % path)
+                        continue
+                    a_ = 'b' if halved == 'u' else 'c'
+                    o_ = 'c' if halved == 'u' else 'b'
+                    ov = 'v' if halved == 'u' else 'u'
+                    ok1, D1 = mod_p_zero(s2, inv(None, a_, s2) * 2 - inv(vals, a_))
+                    if not ok1:
+                        if os.environ.get('JPV_DEBUG'):
+                            print('DEBUG path', s2.p.trace, s2.p.bits)
+                            print('   D1 =', ' + '.join('%#x*%s' % (c_, '*'.join(a for a, e in m_)) for m_, c_ in sorted(D1.t.items(), key=lambda kv: str(kv[0]))))
+                            for a in sorted(D1.atoms()):
+                                at = m.world.atoms[a]
+                                print('      ', a, at['kind'], (at['lo'], hex(at['hi'])), 'defn', repr(at.get('defn'))[:160])
+                                for b_, bt in m.world.atoms.items():
+                                    if bt.get('defn') is not None and a in bt['defn'].atoms():
+                                        print('           used by', b_, bt['kind'], repr(bt['defn'])[:200])
+                        msgs.append('on the path %s halving %s: 2(%s\' - K %s\') - (%s - K %s) is not a multiple of p: %r' % (path, halved, a_, halved, a_, halved, D1))
+                    if not path_normal(m, s2, big(s2, ov) - vals[ov]).is_zero() or not path_normal(m, s2, big(s2, o_) - vals[o_]).is_zero():
+                        msgs.append('on the path %s halving %s changes the other pair' % (path, halved))
+                    range_ok(s2, path)
+            # subtraction step
+            s0, vals = arbitrary()
+            outs = m.exec(s0, ifs[0])
+            if not outs:
+                msgs.append('the subtraction step has no feasible path')
+            for s2 in outs:
+                path = '[' + '; '.join(s2.p.trace[-4:]) + ']'
+                done = False
+                for (x_, y_, a_, o_) in (('u', 'v', 'b', 'c'), ('v', 'u', 'c', 'b')):
+                    if path_normal(m, s2, big(s2, x_) - (vals[x_] - vals[y_])).is_zero() and path_normal(m, s2, big(s2, y_) - vals[y_]).is_zero():
+                        ok1, D1 = mod_p_zero(s2, inv(None, a_, s2) - (inv(vals, a_) - inv(vals, o_)))
+                        ok2 = path_normal(m, s2, big(s2, o_) - vals[o_]).is_zero()
+                        if not ok1 or not ok2:
+                            msgs.append('on the path %s (%s := %s - %s): %s\' - K %s\' is not (%s - K %s) - (%s - K %s) modulo p: %r' % (path, x_, x_, y_, a_, x_, a_, x_, o_, y_, D1))
+                        done = True
+                        range_ok(s2, path)
+                if not done:
+                    msgs.append('on the path %s the step is not u := u - v or v := v - u (exactly, no borrow)' % path)
+            # exit: loop condition and result selection
+            s0, vals = arbitrary()
+            outs = m.exec(s0, tail[0])
+            sel = set()
+            for s2 in outs:
+                rw = sum(((s2.p.mem.get(('RES', i * m.wb)) or ZPoly.var('?')) * (m.W ** i) for i in range(nw)), ZPoly()) if all(
+                    s2.p.mem.get(('RES', i * m.wb)) is not None for i in range(nw)) else None
+                if rw is None:
+                    msgs.append('the result is not written after the loop')
+                    continue
+                one_u = path_normal(m, s2, vals['u'] - 1).is_zero()
+                if path_normal(m, s2, rw - vals['b']).is_zero():
+                    sel.add('b')
+                    if not one_u:
+                        if os.environ.get('JPV_DEBUG'):
+                            print('DEBUG exit path', s2.p.trace, s2.p.bits, [(repr(r[0])[:80], repr(r[1])[:30], sorted(r[2])) for r in s2.p.rels if len(r) == 3])
+                            print('   u-1 =', repr(path_normal(m, s2, vals['u'] - 1))[:300])
+                        # b is returned on a path where u == 1 is not established
+                        msgs.append('the result is b on a path where u == 1 is not established')
+                elif path_normal(m, s2, rw - vals['c']).is_zero():
+                    sel.add('c')
+                else:
+                    msgs.append('the result after the loop is neither b nor c')
+            if sel != {'b', 'c'}:
+                msgs.append('after the loop the result is not selected between b (u == 1) and c')
+            # loop condition: !u.is_one() && !v.is_one()
+            cnames = sorted((pr_canon(c.get('this')), c.get('name')) for c in walk(outer['c']) if isinstance(c, dict) and c.get('k') == 'call')
+            oc = strip(outer['c'])
+            while isinstance(oc, dict) and oc.get('k') == 'cast':
+                oc = strip(oc['e'])
+
+            def _neg_call(x):
+                x = strip(x)
+                while isinstance(x, dict) and x.get('k') == 'cast':
+                    x = strip(x['e'])
+                return isinstance(x, dict) and x.get('k') == 'un' and x.get('op') == '!' and any(isinstance(y, dict) and y.get('k') == 'call' for y in walk(x['e']))
+            shape = isinstance(oc, dict) and oc.get('k') == 'bin' and oc.get('op') == '&&' and _neg_call(oc['lhs']) and _neg_call(oc['rhs'])
+            if [nm for (_, nm) in cnames] != ['is_one', 'is_one'] or len({o for (o, _) in cnames}) != 2 or not shape:
+                msgs.append('the loop condition is not `neither u nor v is one`')
+        except Unsupported as e:
+            raise bm.AnalysisBroken('R-WORDALG/c++ cannot model %s: %s' % (f['qn'], e))
+        n_ob += 1
+        ctx.ob(rule, not msgs, 'wordalg-c++|%s|steps' % name, loc_str(f), '%s: %s' % (name, ' ;; '.join(x[:500] for x in msgs[:2])), cfg=cfg,
+               sample=dict(config=cfg, routine=name, specification='loop invariant b == K u, c == K v (mod p), K = R^2 / a: initial state, both halving steps, subtraction step, result selection'))
+    return n_ob
+
+
+def pr_canon(e):
+    from . import pathrules as _pr
+    return _pr.canon(e) if e is not None else None
